@@ -143,6 +143,7 @@ def solver_requests(ctx):
             params += ["dir.finite_diff=true"]
         y0 = rng.vec(prob.m, 1.0); S0 = [rng.choice([0.5, 1.0, 4.0, 10.0]) for _ in range(prob.m)]
         if rng.random() < 0.25: prob.prov = rng.choice([0x80, 0x20, 0x40, 0x10, 0xa0, 0xfe, 0x0e, rng.randrange(0, 256) & 0xfe])   # provider mix (supplied members poison the work buffers)
+        if solver == "panoc" and rng.random() < 0.3: params.append("solver.eager_gradient_eval=true")
         reqs.append((scenario, crit, budget, sl.Request(prob, x0, y0, S0, solver, direction, "inner", params,
                                                        always=rng.random() < 0.7, tol=tol, **kw)))
     # FISTA in fixed-step mode (L_min == L_max) with general constraints and every criterion: psi(x_hat) / y_hat are evaluated on a different path there
@@ -182,6 +183,19 @@ def solver_requests(ctx):
                         for j in range(0, ctx.n(40, 90)):
                             reqs.append(("stopscan", crit, 30, sl.Request(pc, x0, y0, S0, solver, direction, "inner", ["solver.max_iter=30", "xcrit=%s" % crit],
                                                                          always=False, tol=1e-9, stop_at_eval=j)))
+    # eager gradient evaluation with a problem that supplies eval_ψ_grad_ψ itself (work buffers poisoned): a request landing after a safe step
+    # followed by a step-size backtrack must not make the solver form grad psi(x_hat) from a multiplier estimate it does not have
+    erng = Rng(3)
+    for k in range(40):
+        prob, kind = sl.gen_problem(erng, erng.choice(["qp", "nonconvex"]), n=erng.choice([2, 3]), m=erng.choice([1, 2]))
+        x0 = erng.vec(prob.n, 2.0); y0 = erng.vec(prob.m, 1.0); S0 = [erng.choice([0.5, 1.0, 4.0]) for _ in range(prob.m)]
+        script = [erng.choice([0, 0, 1, 8]) for _ in range(3)]
+        params = ["solver.max_iter=12", "solver.eager_gradient_eval=true", "solver.Lipschitz.L_0=%s" % erng.choice(["1e-3", "1e-2", "0.1"]), "xcrit=ApproxKKT"]
+        if k not in (12, 21) and k % ctx.n(8, 2) != 0:
+            continue            # 12 and 21: runs known to reach that path
+        prob.prov = 0x80
+        for j in range(0, 70):
+            reqs.append(("stopscan", "ApproxKKT", 12, sl.Request(prob, x0, y0, S0, "panoc", "scripted", "inner", params, always=True, tol=1e-9, script=script, stop_at_eval=j)))
     return reqs
 
 def run_oracle(ctx, scenario, crit, req, o):
@@ -221,6 +235,19 @@ def run_oracle(ctx, scenario, crit, req, o):
     fin = recs[-1]
     if fin["status"] != st: bad.append(("C06:final-callback-status:" + req.solver, "final callback status %s != returned %s" % (fin["status"], st)))
     if not sl.close(sl.D(fin, "eps"), eps, 0, 0): bad.append(("C06:final-callback-eps:" + req.solver, "final callback eps differs from stats eps"))
+    # a non-finite residual (and hence NotFinite) is only justified when the documented formula on the final iterate is not finite either
+    if not math.isfinite(eps) and req.nan_from_eval < 0 and scenario != "nan":
+        p = req.prob
+        x, xh, yh = sl.V(fin, "x"), sl.V(fin, "xh"), sl.V(fin, "yh")
+        gamma = sl.D(fin, "gamma"); S = sl.V(fin, "Sigma"); y = sl.V(fin, "y")
+        if all(math.isfinite(t) and abs(t) < 1e100 for t in x + xh + [gamma] + S + y) and gamma > 0:
+            grad_true = p.grad_psi(x, y, S); gradh_true = p.grad_psi(xh, y, S)
+            yh_true = p.yhat(xh, y, S) if p.m else []
+            if all(math.isfinite(t) and abs(t) < 1e100 for t in grad_true + gradh_true + yh_true):
+                e_doc = doc_eps(crit, p.Clb, p.Cub, gamma, x, xh, yh_true, grad_true, gradh_true)
+                if math.isfinite(e_doc) and abs(e_doc) < 1e100:
+                    bad.append(("C06:nonfinite-eps-although-residual-finite:%s:%s" % (req.solver, crit),
+                                "reported eps=%r (status %s) but the documented formula on the final iterate gives %r" % (eps, st, e_doc)))
     # reported eps = documented formula of the final iterate data
     if math.isfinite(eps) and scenario != "nan":
         p = req.prob
